@@ -124,6 +124,7 @@ def breakers(draw, schema):
         'R12c duplicate enumerator name': 'enum XE1\n{\n    XE_a = 1\n};\nenum XE2\n{\n    XE_a = 2\n};\n',
         'R12e enum named like its own enumerator': 'enum XE1\n{\n    XE_a = 1,\n    XE1 = 2\n};\n' + _struct_text('XBad', ['XE1 a;']),
         'R12f struct named like an earlier enumerator': 'enum XE1\n{\n    XBad = 2\n};\n' + _struct_text('XBad', ['u8 a;']),
+        'R12g definition named like a built-in type': 'typedef u16 %s;\n' % draw(st.sampled_from(['r32', 'r64', 'byte'])) + _struct_text('XBad', ['u8 a;']),
         'R12d duplicate arm name': 'union XBad\n{\n    1: u8 a;\n    2: u16 a;\n};\n',
         'R13 duplicate discriminator': 'union XBad\n{\n    1: u8 a;\n    1: u16 b;\n};\n',
         'R14a array size zero': _struct_text('XBad', ['u8 a[0];']),
